@@ -864,8 +864,8 @@ class FormSum(BaseForm):
         # warning("Calling repr on form is potentially expensive and
         # should be avoided except during debugging.")
         # Not caching this because it can be huge
-        itgs = ", ".join(f"{w!r}*{c!r}" for c, w in zip(self.components(), self.weights()))
-        r = "FormSum([" + itgs + "])"
+        itgs = ", ".join(f"({c!r}, {w!r})" for c, w in zip(self.components(), self.weights()))
+        r = "FormSum(" + itgs + ")"
         return r
 
 
